@@ -44,6 +44,10 @@ Clause(e) ==
                  /\ ~(\A i \in 1..Len(res) : ParseNumeral(res[i]).suffix \in {"m", "m7"} => NumeralRoot(res[i]) = Mod12(NumeralRoot(orig) + 9)) THEN "major-for-minor-root"
          ELSE IF e.op = "substitute_diminished_for_diminished"
                  /\ ~(\A i \in 1..Len(res) : NumeralRoot(res[i]) = Mod12(NumeralRoot(orig) + 3 * i)) THEN "diminished-cycle"
+         \* the general substitute() applies the rules again to its own results (depth): starting from a diminished chord, every
+         \* diminished chord it returns is still a member of the original's minor-third cycle
+         ELSE IF e.op = "substitute" /\ ParseNumeral(orig).suffix \in {"dim", "dim7"}
+                 /\ ~(\A i \in 1..Len(res) : ParseNumeral(res[i]).suffix \in {"dim", "dim7"} => Mod12(NumeralRoot(res[i]) - NumeralRoot(orig)) % 3 = 0) THEN "diminished-cycle"
          \* substitute_diminished_for_dominant is not a documented rule (no docstring, no promise in the property):
          \* only well-formedness and argument immutability are demanded of it
          ELSE "ok"
